@@ -585,3 +585,187 @@ def run_scenes(ctx, drv, impl, nmodels, label="engine scenes"):
     ctx.extra["scene_forward_calls"] = nfwd
     ctx.extra["scene_rows_checked"] = stats_tot
     return nfail, updlines
+
+
+# ------------------------------------------------------------------------------------------ solveQCQP (PGS / noslip friction update)
+QCQP_KEY = "c11:qcqp-outside-ellipsoid"
+# deterministic witness of the early exit of mju_QCQP (delta < 1e-10 with la == 0 => reported inactive although the
+# unconstrained minimum violates the constraint): fn = 1, A = diag(1,1,1,.015,.015), b = (.1,-.2,0,1,-1), friction (1,1,.005,1e-4,1e-4)
+QCQP_WITNESS = (6, 1.0, [1.0, 1.0, 1.0, 0.015, 0.015], [0.1, -0.2, 0.0, 1.0, -1.0], [1.0, 1.0, 0.005, 1e-4, 1e-4])
+
+
+def qcqp_line(dim, fn, A, b, mu):
+    return "qcqp %d %s" % (dim, " ".join(hexf(x) for x in [fn] + A + b + mu))
+
+
+def gen_qcqp(rng, n):
+    lines = []
+    dim, fn, dg, b, mu = QCQP_WITNESS
+    k = dim - 1
+    A = [dg[i] if i == j else 0.0 for i in range(k) for j in range(k)]
+    lines.append(qcqp_line(dim, fn, A, b, mu))
+    for _ in range(n):
+        dim = rng.choice((3, 4, 6))
+        k = dim - 1
+        # SPD matrix A = B B' + eps I (the AR block of a contact), conditioned like the engine's: friction rows of the
+        # PGS solver carry the regulariser R on the diagonal
+        B = [[rng.gauss(0, 1) for _ in range(k)] for _ in range(k)]
+        eps = rng.choice((1e-2, 1.0, 10.0))
+        A = [sum(B[i][t] * B[j][t] for t in range(k)) + (eps if i == j else 0.0) for i in range(k) for j in range(k)]
+        fr = gen_friction(rng)
+        if rng.random() < 0.7:
+            # regularised as in PGS: R_j = R1 f0^2 / f_j^2
+            R1 = pos_scale(rng)
+            for j in range(k):
+                A[j * k + j] += R1 * fr[0] * fr[0] / (fr[j] * fr[j])
+        fn = abs(rng.gauss(0, 1)) * rng.choice((0.01, 1.0, 100.0)) + 1e-6
+        b = [rng.gauss(0, 1) * rng.choice((0.1, 1.0, 100.0)) for _ in range(k)]
+        lines.append(qcqp_line(dim, fn, A, b, fr))
+    return lines
+
+
+def qcqp_oracle(line, out):
+    w = line.split()
+    dim = int(w[1])
+    k = dim - 1
+    x = [unhex(t) for t in w[2:]]
+    fn, mu = x[0], x[1 + k * k + k:]
+    try:
+        v = [unhex(t) for t in out.split()]
+    except Exception:
+        return None
+    if len(v) != k or not finite(*v):
+        return (QCQP_KEY, "solveQCQP returned %r" % out[:100])
+    s = sum(v[j] * v[j] / (mu[j] * mu[j]) for j in range(k))
+    if s > fn * fn * (1 + 1e-6) + 1e-300:
+        return (QCQP_KEY, "solveQCQP (friction update of PGS / noslip) returned friction outside the ellipsoid: "
+                          "sum f_j^2/mu_j^2 = %r > f_normal^2 = %r (dim %d, friction %r)" % (s, fn * fn, dim, mu))
+    return None
+
+
+# ------------------------------------------------------------------------------------------ run
+def keyf(line):
+    return line if len(line.split()) > 8 else None
+
+
+def synthetic_lines(ctx, nupd, nmisc):
+    rng = ctx.rng
+    ups, lines, hist = [], [], {}
+    for _ in range(nupd):
+        u = gen_upd(rng)
+        ups.append(u)
+        lines.append(u.line(rng.randint(0, 1)))
+        for t in u.tags:
+            k = t if not t.startswith("ell") else ":".join(t.split(":")[:3])
+            hist[k] = hist.get(k, 0) + 1
+    misc = gen_misc(rng, nmisc)
+    # malformed / out-of-range ops: both sides must refuse
+    extra = ["frob 1 2", "upd 0 0 0 1 0 3ff0000000000000 3ff0000000000000 0000000000000000 bff0000000000000 7 0",
+             "upd 0 0 0 2 1 3ff0000000000000 3ff0000000000000 0000000000000000 bff0000000000000 7 0 3ff0000000000000 3ff0000000000000 "
+             "0000000000000000 bff0000000000000 7 0 3 3ff0000000000000 3ff0000000000000 3ff0000000000000 3ff0000000000000 3ff0000000000000 3ff0000000000000",
+             "upd 1 0 0 1 0 3ff0000000000000 3ff0000000000000 0000000000000000 zz 0 0", "dec 7 0", "pc 1 0", "jtv 1 0 0000000000000000"]
+    return ups, lines, misc, extra, hist
+
+
+def max_dev(model_out, impl_out):
+    """largest relative deviation between two output lines of floats (0.0 when bitwise equal)"""
+    if model_out == impl_out:
+        return 0.0
+    dev = 0.0
+    for a, b in zip(model_out.replace("|", " ").replace(";", " ").split(), impl_out.replace("|", " ").replace(";", " ").split()):
+        if a != b and len(a) == 16 and len(b) == 16:
+            try:
+                x, y = unhex(a), unhex(b)
+                dev = max(dev, abs(x - y) / max(abs(x), abs(y), 1e-300))
+            except Exception:
+                dev = math.inf
+        elif a != b:
+            dev = math.inf
+    return dev
+
+
+def run(ctx):
+    thorough = ctx.tier == "thorough"
+    ctx.rule = ("upd lines: random compositions of equality / friction-loss / limit / pyramidal rows and elliptic blocks of condim "
+                "1..6 with parameters as mj_makeImpedance sets them (80%) or unrelated (20%), residuals aimed at every zone "
+                "interior, at computed and exactly representable zone boundaries, one ulp around them, the apex and the cone axis, "
+                "plus non-finite/denormal values; jtv/dec/enc/pc lines for mju_mulMatTVec, mju_{de,en}codePyramid, projectCone; "
+                "`upd` lines dumped from the efc arrays of generated scenes (jar = J qacc - aref). Outputs are compared bit for bit. "
+                "Scenes: gen/models.py bodies over a plane with limits, friction loss, equalities, tendons, every solver x cone x "
+                "dense/sparse, optional noslip and adhesion. A case is distinct by its full line / (model,state,solver,cone)")
+    ctx.lean_props(THEOREMS)
+    drv = ctx.driver("drv_c11")
+    impl = ctx.harness("harness/c/c11_constraint.c", "c11_constraint", deps=["harness/mjbuild.h"])
+    if not (drv and impl):
+        return
+    ups, lines, misc, extra, hist = synthetic_lines(ctx, 60000 if thorough else 6000, 20000 if thorough else 3000)
+    ctx.extra["synthetic_distribution"] = hist
+    # ---- engine scenes first (their efc arrays also feed the correspondence)
+    nfail, updlines = run_scenes(ctx, drv, impl, 160 if thorough else 26)
+    all_lines = lines + misc + extra + updlines
+    rc, outs, err = ctx.run_lines([impl], all_lines)
+    bad = ctx.differential("mj_constraintUpdate_impl / mju_mulMatTVec / pyramid codec / projectCone vs Lean model on Float (bitwise)",
+                           [drv], [impl], all_lines, keyf=keyf)
+    ctx.extra["max_float_deviation"] = max([0.0] + [max_dev(b["model"] or "", b["impl"] or "") for b in bad])
+    ctx.extra["tolerance"] = "bitwise (0 ulp): the model performs the same IEEE operations in the same order; tree built with -ffp-contract=off"
+    ctx.extra["engine_upd_lines"] = len(updlines)
+    # ---- S: admissibility oracle on the implementation's outputs alone
+    nstate = {}
+    if rc == 0 and len(outs) == len(all_lines):
+        for u, o in zip(ups, outs[:len(ups)]):
+            r = parse_upd_out(o)
+            if r:
+                for st in r[2]:
+                    nstate[st] = nstate.get(st, 0) + 1
+            for key, what in admissible_oracle(u, o):
+                nfail += 1
+                if nfail <= 8:
+                    ctx.oracle_failure(key, what, {"line": u.line(0), "impl_output": o[:2000], "tags": u.tags,
+                                                   "replay": "echo '<line>' | <c11_constraint harness>"})
+        off = len(ups)
+        for l, o in zip(misc, outs[off:off + len(misc)]):
+            r = misc_oracle(l, o)
+            if r:
+                nfail += 1
+                if nfail <= 8:
+                    ctx.oracle_failure(r[0], r[1], {"line": l, "impl_output": o, "replay": "echo '<line>' | <c11_constraint harness>"})
+        for l, o in zip(extra, outs[off + len(misc):off + len(misc) + len(extra)]):
+            if o not in ("bad-op", "oob"):
+                ctx.oracle_failure("c11:malformed-accepted", "malformed / out-of-range op accepted", {"line": l, "impl_output": o})
+        ctx.sample({"op": lines[7][:160] + " ...", "tags": ups[7].tags, "model_and_impl_output": outs[7][:200]})
+        ctx.sample({"op": misc[3][:160], "impl_output": outs[off + 3][:160]})
+    else:
+        ctx.oracle_failure("c11:crash", "constraint harness crashed (rc=%s, %d outputs for %d lines)" % (rc, len(outs), len(all_lines)),
+                           {"stderr": err[-500:]})
+    ctx.extra["efc_state_histogram_synthetic"] = {str(k): v for k, v in sorted(nstate.items())}
+    # ---- solveQCQP (no Lean model: oracle only)
+    ql = gen_qcqp(ctx.rng, 4000 if thorough else 600)
+    rc, qo, err = ctx.run_lines([impl], ql)
+    nq = 0
+    if rc == 0 and len(qo) == len(ql):
+        for l, o in zip(ql, qo):
+            r = qcqp_oracle(l, o)
+            if r:
+                nq += 1
+                if nq <= 3:
+                    ctx.oracle_failure(r[0], r[1], {"line": l, "impl_output": o, "replay": "echo '<line>' | <c11_constraint harness>"})
+    ctx.extra["qcqp_lines"] = len(ql)
+    ctx.extra["qcqp_failures"] = nq
+    ctx.extra["oracle_failures"] = nfail + nq
+
+    def directed(c):
+        # a proof / tie obligation broke and the oracle found nothing: search the real function harder
+        for rnd in range(20):
+            us = [gen_upd(c.rng, maxblocks=3) for _ in range(3000)]
+            ls = [u.line(1) for u in us]
+            rc2, o2, _ = c.run_lines([impl], ls)
+            if rc2 != 0 or len(o2) != len(ls):
+                return {"key": "c11:crash", "what": "harness crashed in directed search", "replay": {"n": len(o2)}}
+            for u, o in zip(us, o2):
+                b = admissible_oracle(u, o)
+                if b:
+                    return {"key": b[0][0], "what": b[0][1], "replay": {"line": u.line(1), "impl_output": o[:2000]}}
+        return None
+    ctx.directed_search = directed
+    if thorough:
+        ctx.leanchecker(["MjProof.Props.C11"])
